@@ -221,12 +221,44 @@ def check_C01(ctx):
             good = good and f.get('st') == '0' and val_eq(f.get('val'), r['h']['dump']) and f.get('end') == str(pos)
         if not good or pos != total:
             ctx.violate('sequence', 'values written back to back did not read back in frame: ' + line[:200], {'case': line, 'output': o})
+    # std::reference_wrapper<T> forwards to T, and Protocol<T> to the serializer it is given: same status, value, position,
+    # bytes and size as T itself, on valid and on damaged encodings
+    D = {nopgen.desc(t): i for i, t in enumerate(pool.types)}
+    kinds = {'u32': '(s 0 u32)', 'i64': '(s 0 i64)', 'str': '(str 1)', 'vu8': '(seq vec (s 0 u8))', 'vi32': '(seq vec (s 0 i32))', 'pair': '(tup pair (s 0 i32) (s 0 i32))'}
+    rl = []
+    for k, dsc in kinds.items():
+        if dsc not in D:
+            continue
+        hexes = [r['h']['bytes'] for r in enc_ok if r['tid'] == D[dsc]][: (12 if ctx.quick else 200)]
+        for hx in hexes:
+            rl.append((k, hx, 'valid'))
+            for kind, m in mutations(hx, ctx.rng, 6 if ctx.quick else 30):
+                rl.append((k, m, 'damaged'))
+    ro = run_prim(pool, ['refw %s %s' % (k, hx) for k, hx, _ in rl])
+    for (k, hx, tag), o in zip(rl, ro):
+        line = 'refw %s %s' % (k, hx)
+        ctx.count('reference-wrapper:' + tag, line)
+        if o.startswith(('CRASH', 'HARNESS', 'OOM', 'EXCEPTION')):
+            ctx.violate('crash:refw', 'reading/writing through std::reference_wrapper or Protocol crashed: %s -> %s' % (line[:160], o[:300]), {'case': line, 'output': o})
+            continue
+        f = sx.fields(o)
+        bad = None
+        if f.get('pst') != f.get('rst') or f.get('pcons') != f.get('rcons') or (f.get('pst') == '0' and f.get('pval') != f.get('rval')):
+            bad = 'reading through std::reference_wrapper<T> differs from reading T'
+        elif f.get('pst') == '0' and (f.get('pw') != '0' or f.get('rw') != '0' or f.get('pbytes') != f.get('rbytes') or f.get('psize') != f.get('rsize')):
+            bad = 'writing through std::reference_wrapper<T> differs from writing T'
+        elif f.get('pst') == '0' and (f.get('qw') != '0' or f.get('qbytes') != f.get('pbytes') or f.get('qr') != '0' or f.get('qval') != f.get('pval') or f.get('qcons') != f.get('pcons')):
+            bad = 'Protocol<T>::Write/Read differs from the serializer it was given'
+        elif tag == 'valid' and (f.get('pst') != '0' or f.get('pbytes') != hx or f.get('pcons') != str(hexlen(hx))):
+            bad = 'a value the library wrote does not read back and re-encode to the same bytes'
+        if bad:
+            ctx.violate('roundtrip:refw', '%s: %s -> %s' % (bad, line[:160], o[:300]), {'case': line, 'output': o})
     # every writer x reader pairing the type supports
     sample = [r for r in enc_ok if 'handle' not in pool.caps[r['tid']]]
     ctx.rng.shuffle(sample)
     sample = sample[: (120 if ctx.quick else 2500)]
-    wkinds = ['buf', 'ped', 'cx', 'stream', 'fd', 'bbuf', 'bped', 'pbuf', 'ubuf', 'uped']
-    rkinds = ['buf', 'ped', 'stream', 'fstream', 'fd', 'bbuf', 'bped', 'bstream', 'bfstream', 'bfd', 'pbuf', 'ubuf', 'uped']
+    wkinds = ['buf', 'ped', 'cx', 'stream', 'fd', 'mfd', 'bbuf', 'bped', 'pbuf', 'ubuf', 'uped']
+    rkinds = ['buf', 'ped', 'stream', 'fstream', 'fd', 'mfd', 'bbuf', 'bped', 'bstream', 'bfstream', 'bfd', 'pbuf', 'ubuf', 'uped']
     wl = []
     for r in sample:
         size = int(r['h']['size'])
@@ -239,6 +271,8 @@ def check_C01(ctx):
             continue
         ctx.count('pairing-write:' + k, line)
         f = sx.fields(o) if not o.startswith(('CRASH', 'HARNESS', 'OOM', 'EXCEPTION')) else {}
+        if f.get('moved', 'ok') != 'ok':
+            ctx.violate('fd-ownership:' + k, 'a moved FdWriter did not carry its descriptor along, or Release() did not hand it back open (released/open = %s): %s' % (f.get('moved'), line[:160]), {'case': line, 'output': o})
         if f.get('st') != '0' or f.get('bytes') != r['h']['bytes']:
             ctx.violate('writer:' + k, 'writer %s produced st=%s bytes=%s, expected %s: %s' % (k, f.get('st'), str(f.get('bytes'))[:80], r['h']['bytes'][:80], line[:160]),
                         {'case': line, 'output': o, 'expected': r['h']['bytes']})
@@ -254,6 +288,8 @@ def check_C01(ctx):
             continue
         ctx.count('pairing-read:' + rk, line)
         f = sx.fields(o) if not o.startswith(('CRASH', 'HARNESS', 'OOM', 'EXCEPTION')) else {}
+        if f.get('moved', 'ok') != 'ok':
+            ctx.violate('fd-ownership:' + rk, 'a moved FdReader did not carry its descriptor along, or Release() did not hand it back open (released/open = %s): %s' % (f.get('moved'), line[:160]), {'case': line, 'output': o})
         if f.get('st') != '0' or not val_eq(f.get('val'), r['h']['dump']) or f.get('consumed') != str(n):
             ctx.violate('reader:' + rk, 'reader %s did not return the written value / byte count: %s -> %s' % (rk, line[:160], o[:200]),
                         {'case': line, 'output': o, 'expected_value': r['h']['dump'], 'expected_consumed': n})
@@ -301,7 +337,7 @@ def check_C05(ctx):
     ctx.rng.shuffle(encs)
     encs = encs[: (700 if ctx.quick else 12000)]
     items, lib = [], []
-    rkinds = ['buf', 'ped', 'stream', 'fstream', 'fd', 'bbuf', 'bped', 'bstream', 'bfstream', 'bfd', 'pbuf', 'ubuf', 'uped']
+    rkinds = ['buf', 'ped', 'stream', 'fstream', 'fd', 'mfd', 'bbuf', 'bped', 'bstream', 'bfstream', 'bfd', 'pbuf', 'ubuf', 'uped']
     for tid, hx in encs:
         n = hexlen(hx)
         cuts = range(n) if n <= 40 else sorted(set(list(range(10)) + [ctx.rng.randrange(n) for _ in range(20)] + [n - 1, n - 2]))
@@ -1109,6 +1145,35 @@ def check_C09(ctx):
 
 
 # ------------------------------------------------------------- C16 / C17 -----
+OBS_RE = re.compile(r' (b?obs)=(\S+)')
+
+
+def split_obs(o):
+    """the observer fields the harness appends (obs= of the library object, bobs= of the bounded wrapper) are judged by
+    their own oracle and removed before the output is compared with the model's"""
+    return OBS_RE.sub('', o), dict(OBS_RE.findall(o))
+
+
+def obs_violation(kind, f, obs, n=None, lim=None, cap=None):
+    """position observers after a call sequence: empty()/remaining()/capacity() of the buffer readers, size()/capacity() of
+    the buffer writers, empty()/capacity() of the bounded wrappers"""
+    if 'obs' in obs and n is not None and 'pos' in f:
+        pos = int(f['pos'])
+        want = '%d/%d/%d' % (1 if pos == n else 0, n - pos, n)
+        if obs['obs'] != want:
+            return 'after consuming %d of %d bytes empty()/remaining()/capacity() = %s, expected %s' % (pos, n, obs['obs'], want)
+    if 'obs' in obs and cap is not None and 'bytes' in f:
+        sz = obs['obs'].split('/')
+        nb = 0 if f['bytes'] == '-' else len(f['bytes']) // 2
+        if sz[1] != str(cap) or (int(sz[0]) <= cap and int(sz[0]) != nb):
+            return 'size()/capacity() = %s with %d bytes in a buffer of %d' % (obs['obs'], nb, cap)
+    if 'bobs' in obs and lim is not None and 'used' in f:
+        want = ('%d/%d' % (1 if int(f['used']) == lim else 0, lim)) if '/' in obs['bobs'] else str(lim)
+        if obs['bobs'] != want:
+            return 'the bounded wrapper reports empty()/capacity() = %s after %s of %d bytes, expected %s' % (obs['bobs'], f['used'], lim, want)
+    return None
+
+
 def run_prim(pool, lines):
     return run_parallel([os.path.join(pool.dir, 'prim')], lines, env=ASAN_ENV, what='prim')
 
@@ -1198,7 +1263,11 @@ def check_C16(ctx):
         if o.startswith(('CRASH', 'HARNESS', 'EXCEPTION', 'OOM')):
             ctx.violate('memory-error', 'bounded %s crashed or tripped a sanitizer: %s -> %s' % ('reader' if kind == 'r' else 'writer', line[:200], o[:300]), {'case': line, 'output': o})
             continue
+        o, obs = split_obs(o)
         f = sx.fields(o)
+        ov = obs_violation(kind, f, obs, lim=lim)
+        if ov:
+            ctx.violate('observers', '%s: %s' % (ov, line[:200]), {'case': line, 'output': o, 'observers': obs})
         used = int(f.get('used', '0'))
         # calls are counted only when they succeed: recompute the count from the per-call outcomes
         exp_used = 0
@@ -1277,7 +1346,7 @@ def check_C17(ctx):
     pool = get_pool()
     rng = ctx.rng
     cases = []
-    rkinds = ['inst', 'buf', 'ped', 'stream', 'fd', 'bbuf', 'bped', 'binst']
+    rkinds = ['inst', 'buf', 'ped', 'vbuf', 'vped', 'stream', 'fd', 'bbuf', 'bped', 'binst']
     for _ in range(600 if ctx.quick else 60000):
         n = rng.choice([0, 1, 2, 7, 8, 9, 16, 31])
         data = ''.join('%02x' % rng.randrange(256) for _ in range(n)) or '-'
@@ -1293,7 +1362,8 @@ def check_C17(ctx):
                 cs = [c for c in calls if c[0] != 'E']          # StreamReader::Ensure is a no-op
             lines.append((k, n, data, cs, 'rseq %s %d - 0 %s %s' % (k, n + 5, data, ','.join(cs) or '-')))
     ho = run_prim(pool, [l[4] for l in lines])
-    mo = run_driver(pool, [l[4] for l in lines])
+    # the (const void*, size) constructors behave like the (const uint8_t*, size) ones: same model
+    mo = run_driver(pool, [l[4].replace('rseq vbuf', 'rseq buf').replace('rseq vped', 'rseq ped') for l in lines])
     broken = []
     ref = {}
     for (k, n, data, cs, line), o, m in zip(lines, ho, mo):
@@ -1301,7 +1371,11 @@ def check_C17(ctx):
         if o.startswith(('CRASH', 'HARNESS', 'EXCEPTION', 'OOM')):
             ctx.violate('memory-error:' + k, 'reader %s crashed or tripped a sanitizer: %s -> %s' % (k, line[:200], o[:300]), {'case': line, 'output': o})
             continue
+        o, obs = split_obs(o)
         f = sx.fields(o)
+        ov = obs_violation(k, f, obs, n=n, lim=n + 5)
+        if ov:
+            ctx.violate('observers:' + k, 'reader %s: %s: %s' % (k, ov, line[:200]), {'case': line, 'output': o, 'observers': obs})
         got = first_fail(f['res'])
         # reference: the list model on the same calls
         want = first_fail(sx.fields(m)['res']) if not m.startswith('DRIVER') else None
@@ -1313,10 +1387,10 @@ def check_C17(ctx):
             if not ok:
                 ctx.violate('reader-contract:' + k, 'reader %s deviates from the byte-source contract: %s -> %s (expected %s)' % (k, line[:200], ','.join(got)[:160], ','.join(want)[:160]),
                             {'case': line, 'output': o, 'model': m})
-            elif k in ('inst', 'buf', 'ped', 'bbuf', 'bped', 'binst') and sx.fields(m) != f:
+            elif k in ('inst', 'buf', 'ped', 'vbuf', 'vped', 'bbuf', 'bped', 'binst') and sx.fields(m) != f:
                 broken.append({'case': line, 'hraw': o, 'mraw': m})
     # writers
-    wkinds = ['inst', 'buf', 'ped', 'cx', 'stream', 'fd', 'bbuf', 'bped', 'binst']
+    wkinds = ['inst', 'buf', 'ped', 'vbuf', 'vped', 'cx', 'stream', 'fd', 'bbuf', 'bped', 'binst']
     wl = []
     for _ in range(500 if ctx.quick else 50000):
         cap = rng.choice([0, 1, 4, 16, 64])
@@ -1339,17 +1413,21 @@ def check_C17(ctx):
             cs = calls
             if k == 'fd':
                 cs = [c for c in calls if c[0] != 'K']
-            if k in ('buf', 'bbuf') and used > cap:
+            if k in ('buf', 'vbuf', 'bbuf') and used > cap:
                 continue        # an unchecked writer must not be driven past its capacity (caller's contract)
             wlines.append((k, cap, cs, used, 'wseq %s %d %d - 0 %s' % (k, cap, cap, ','.join(cs) or '-')))
     ho = run_prim(pool, [l[4] for l in wlines])
-    mo = run_driver(pool, [l[4] for l in wlines])
+    mo = run_driver(pool, [l[4].replace('wseq vbuf', 'wseq buf').replace('wseq vped', 'wseq ped') for l in wlines])
     for (k, cap, cs, used, line), o, m in zip(wlines, ho, mo):
         ctx.count('writer:' + k, line)
         if o.startswith(('CRASH', 'HARNESS', 'EXCEPTION', 'OOM')):
             ctx.violate('memory-error:' + k, 'writer %s crashed or tripped a sanitizer: %s -> %s' % (k, line[:200], o[:300]), {'case': line, 'output': o})
             continue
+        o, obs = split_obs(o)
         f = sx.fields(o)
+        ov = obs_violation(k, f, obs, cap=(cap if k != 'binst' else None), lim=cap)
+        if ov:
+            ctx.violate('observers:' + k, 'writer %s: %s: %s' % (k, ov, line[:200]), {'case': line, 'output': o, 'observers': obs})
         if m.startswith('DRIVER'):
             continue
         g = sx.fields(m)
@@ -1405,6 +1483,23 @@ def check_C18(ctx):
                         % (len(d), k0, k1, f['h'], f['hchar'], ref), {'case': line, 'output': o, 'standard': ref})
         elif g.get('h') != f['h'] or g.get('spec') != f['h']:
             ctx.violate('corr:siphash', 'model SipHash disagrees: %s vs %s' % (m, o), {'no_failing_input': True, 'case': line, 'model': m, 'output': o})
+    # the array overload at run time (the one the macros evaluate at compile time): arrays of 1..40 elements, zero bytes inside
+    al = []
+    for n in range(1, 41):
+        for _ in range(2 if ctx.quick else 20):
+            bs = bytes(ctx.rng.choice([0, 0, ctx.rng.randrange(256), ctx.rng.randrange(128, 256)]) for _ in range(n))
+            k0, k1 = ctx.rng.choice(keys)
+            al.append((bs, k0, k1))
+    ao = run_prim(pool, ['siparr %s %d %d' % (b.hex(), k0, k1) for b, k0, k1 in al])
+    for (b, k0, k1), o in zip(al, ao):
+        line = 'siparr %s %d %d' % (b.hex(), k0, k1)
+        ctx.count('array-overload', line)
+        f = sx.fields(o) if not o.startswith(('CRASH', 'HARNESS', 'OOM', 'EXCEPTION', 'unsupported')) else {}
+        want = nopgen.siphash24(b, k0, k1)
+        wsel = nopgen.siphash24(b, k0, 0x0123456789abcdef)
+        if f.get('harr') != str(want) or f.get('harru') != str(want) or f.get('sel64') != str(wsel) or f.get('sel32') != str(wsel & 0xffffffff):
+            ctx.violate('siphash-array', 'SipHash::Compute(array) / ComputeMethodSelector over the %d elements %s gives %s; SipHash-2-4 of all the elements is %d (selector %d)' %
+                        (len(b), b.hex(), o[:160], want, wsel), {'case': line, 'output': o, 'standard': want, 'selector': wsel})
     # compile-time values of generated names: table hash, interface hash, 64- and 32-bit selectors
     names = run_prim(pool, ['sipnames'])[0]
     if not names.startswith('names='):
